@@ -466,8 +466,6 @@ Section Main.
     intros NL E. apply scan_filter_spec in E as (m' & F & ->). rewrite (filter_msg _ _ _ NL F). exact F.
   Qed.
 
-  Lemma not_hash_bracket : "["%char <> "#"%char. Proof. discriminate. Qed.
-
   (* ---- the cascade yields an item the grammar allows ---- *)
   Theorem parse_meets_spec l : no_nl l -> Spec l (P l).
   Proof.
@@ -538,9 +536,6 @@ Section Unique.
   Notation P := (parse_line parse_dur regex_ok atoi).
   Notation Spec := (LineSpec parse_dur regex_ok atoi).
   Notation Bad := (malformed parse_dur regex_ok atoi).
-
-  Ltac excl F lemma_head :=
-    pose proof (lemma_head _ _ _ F) as HD.
 
   (* ---- and it is the only one: the grammar is unambiguous ---- *)
   Theorem spec_unique l i : no_nl l -> Spec l i -> i = P l.
